@@ -205,6 +205,56 @@ theorem lemma_parse_render_over (n : Int) (h : overLimit (numDigits n) = true) :
   unfold numDigits at h
   rw [lemma_render_eq, lemma_parse_nat, if_pos h]
 
+/-! ### `str.lower()` with the generated table -/
+
+theorem lemma_table_nonascii : ∀ e ∈ Gen.lowerTable, 128 ≤ e.1 := by decide +kernel
+
+theorem lemma_lowerChars_of_none (c : Char)
+    (h : Gen.lowerTable.find? (fun e => e.1 == c.toNat) = none) : lowerChars c = [lowerChar c] := by
+  unfold lowerChars; rw [h]
+
+theorem lemma_lowerChars_ascii (c : Char) (h : c.toNat < 128) : lowerChars c = [lowerChar c] := by
+  apply lemma_lowerChars_of_none
+  rw [List.find?_eq_none]
+  intro e he
+  have := lemma_table_nonascii e he
+  simp only [beq_iff_eq]
+  omega
+
+theorem lemma_pyLower_ascii (l : List Char) (h : ∀ c ∈ l, c.toNat < 128) :
+    pyLower l = l.map lowerChar := by
+  induction l with
+  | nil => rfl
+  | cons a l ih =>
+    have := ih (fun c hc => h c (by simp [hc]))
+    unfold pyLower at this ⊢
+    rw [List.flatMap_cons, lemma_lowerChars_ascii a (h a (by simp)), this]
+    rfl
+
+/-- If every character of `pyLower u` lies in an alphabet `A` that no table entry lowers into, then
+    no character of `u` is in the table: `u` is lowered character by character by `lowerChar`. -/
+theorem lemma_pyLower_into (A : Char → Prop)
+    (hT : ∀ e ∈ Gen.lowerTable, e.2 ≠ [] ∧ ∀ x ∈ e.2, ¬ A (Char.ofNat x))
+    (u : List Char) (h : ∀ x ∈ pyLower u, A x) : pyLower u = u.map lowerChar := by
+  induction u with
+  | nil => rfl
+  | cons c u ih =>
+    have hcons : pyLower (c :: u) = lowerChars c ++ pyLower u := by
+      unfold pyLower; rw [List.flatMap_cons]
+    rw [hcons] at h ⊢
+    have ih' := ih (fun x hx => h x (by simp [hx]))
+    cases hf : Gen.lowerTable.find? (fun e => e.1 == c.toNat) with
+    | none => rw [lemma_lowerChars_of_none c hf, ih']; rfl
+    | some e =>
+      exfalso
+      have he := hT e (List.mem_of_find?_eq_some hf)
+      have hl : lowerChars c = e.2.map Char.ofNat := by unfold lowerChars; rw [hf]
+      cases h2 : e.2 with
+      | nil => exact he.1 h2
+      | cons x xs =>
+        have hx : Char.ofNat x ∈ lowerChars c ++ pyLower u := by rw [hl, h2]; simp
+        exact he.2 x (by rw [h2]; simp) (h _ hx)
+
 /-! ### base 16 and the UUID rendering -/
 
 def lowerHexChars : List Char :=
@@ -212,7 +262,8 @@ def lowerHexChars : List Char :=
 
 theorem lemma_hex_char_facts : ∀ c ∈ hexChars,
     isDigitIn 16 c = true ∧ (digitVal c).map (fun d => Nat.digitChar (d % 16)) = some (lowerChar c)
-    ∧ c ≠ 'x' ∧ c ≠ 'X' ∧ c ≠ 'u' ∧ isBrace c = false ∧ c ≠ '-' ∧ lowerChar c ∈ lowerHexChars := by
+    ∧ c ≠ 'x' ∧ c ≠ 'X' ∧ c ≠ 'u' ∧ isBrace c = false ∧ c ≠ '-' ∧ lowerChar c ∈ lowerHexChars
+    ∧ c.toNat < 128 := by
   decide
 
 theorem lemma_lowerHex_facts : ∀ c ∈ lowerHexChars, c ∈ hexChars ∧ c ≠ '-' ∧ lowerChar c = c := by
@@ -235,6 +286,21 @@ theorem lemma_lower_hex (c : Char) (h : lowerChar c ∈ lowerHexChars) : c ∈ h
       rw [if_neg (by omega)]
     rw [this] at h
     exact (lemma_lowerHex_facts c h).1
+
+theorem lemma_table_not_lowerHex :
+    ∀ e ∈ Gen.lowerTable, e.2 ≠ [] ∧ ∀ x ∈ e.2, ¬ (Char.ofNat x ∈ lowerHexChars) := by decide +kernel
+
+/-- a string whose `str.lower()` consists of lower-case hex digits is made of hex digits, and its
+    lower-casing is character by character -/
+theorem lemma_pyLower_hex (u : List Char) (h : ∀ x ∈ pyLower u, x ∈ lowerHexChars) :
+    pyLower u = u.map lowerChar ∧ (pyLower u).length = u.length ∧ ∀ c ∈ u, c ∈ hexChars := by
+  have e := lemma_pyLower_into (fun x => x ∈ lowerHexChars) lemma_table_not_lowerHex u h
+  refine ⟨e, by rw [e, List.length_map], ?_⟩
+  intro c hc
+  apply lemma_lower_hex
+  apply h
+  rw [e]
+  exact List.mem_map.mpr ⟨c, hc, rfl⟩
 
 theorem lemma_hexFixed_length (w n : Nat) : (hexFixed w n).length = w := by
   induction w generalizing n with
@@ -259,9 +325,9 @@ theorem lemma_bodyValue_snoc (base : Nat) (l : List Char) (c : Char) :
     rendering is the string lower-cased -/
 theorem lemma_hex_value_rev (r : List Char) (h : ∀ c ∈ r, c ∈ hexChars) :
     bodyValue 16 r.reverse < 16 ^ r.length ∧
-    hexFixed r.length (bodyValue 16 r.reverse) = pyLower r.reverse := by
+    hexFixed r.length (bodyValue 16 r.reverse) = r.reverse.map lowerChar := by
   induction r with
-  | nil => simp [bodyValue, hexFixed, pyLower]
+  | nil => simp [bodyValue, hexFixed]
   | cons c r ih =>
     obtain ⟨ih1, ih2⟩ := ih (fun x hx => h x (by simp [hx]))
     have hc := lemma_hex_char_facts c (h c (by simp))
@@ -284,11 +350,12 @@ theorem lemma_hex_value_rev (r : List Char) (h : ∀ c ∈ r, c ∈ hexChars) :
     · rw [Nat.pow_succ]; omega
     · have e1 : (bodyValue 16 r.reverse * 16 + d) / 16 = bodyValue 16 r.reverse := by omega
       have e2 : (bodyValue 16 r.reverse * 16 + d) % 16 = d := by omega
-      simp only [hexFixed, e1, e2, ih2, hdc, pyLower, List.map_append, List.map_cons, List.map_nil]
+      simp only [hexFixed, e1, e2, ih2, hdc, List.map_append, List.map_cons, List.map_nil]
 
 theorem lemma_hex_value (h : List Char) (hh : ∀ c ∈ h, c ∈ hexChars) :
     bodyValue 16 h < 16 ^ h.length ∧ hexFixed h.length (bodyValue 16 h) = pyLower h := by
   have := lemma_hex_value_rev h.reverse (fun c hc => hh c (List.mem_reverse.mp hc))
+  rw [lemma_pyLower_ascii h (fun c hc => (lemma_hex_char_facts c (hh c hc)).2.2.2.2.2.2.2.2)]
   simpa using this
 
 theorem lemma_skipHexPrefix_hex (h : List Char) (hh : ∀ c ∈ h, c ∈ hexChars) :
